@@ -12,7 +12,8 @@ FaultKinds == {"husb-missing", "wife-missing", "chil-missing",           \* refe
                "duplicate-individual", "duplicate-family", "individual-and-family-share-pointer",
                "family-without-members", "source-without-title", "famc-missing", "fams-missing",
                "date-garbage", "date-empty", "date-partial", "date-reversed-range", "date-far-future",
-               "surname-digit", "surname-symbol", "surname-multibyte", "surname-only-punctuation", "only-faulty-people"}
+               "surname-digit", "surname-symbol", "surname-multibyte", "surname-only-punctuation", "only-faulty-people",
+               "undated-people"}                                          \* no event with a date at all (with the cyclic links: nothing to estimate from)
 
 \* the commands, as the harness names them
 Commands == {"warnings", "publish-show", "publish-hide", "publish-placeholder", "publish-show-jobs4"}
